@@ -132,7 +132,7 @@ PROPS = {
         "assumed": [],
     },
     "C07": {
-        "verus": ["verify_history", ("verify_base", BASE_VERIFY_FNS), ("markers", ["get_marker_versions", "lemma_l1", "find_max_index_in_skiplist", "get_bit_length", "get_marker_version_log2"])],
+        "verus": ["verify_history", ("verify_base", BASE_VERIFY_FNS), ("markers", ["get_marker_versions", "lemma_l1", "lemma_history_pins_latest", "lemma_next_is_future_marker", "find_max_index_in_skiplist", "get_bit_length", "get_marker_version_log2"])],
         "verus_thorough": ["node_label"],
         "search": True,
         "always_search": True,
